@@ -123,3 +123,57 @@ def register(reg):
                  ensures=post('OUTLEN2', 'OUTAT2', False) + ['seq(children) == %s' % CH],
                  loops={0: dict(inv=[OWNED] + VIEW[1:2] + VIEW_REST + DIST + inv('OUTLEN2', 'OUTAT2'))},
                  replay=_replay)
+
+    # ---- which symbols a rule keeps, which are inlined, and how many placeholders go where (region of maybe_create_child_filter that
+    # consumes the per-position placeholder counts `empty_indices`; the run-length decoding above it is covered by the bounded cross-check)
+    import ast as _ast
+
+    def include_region(fn):
+        out, on = [], False
+        for s_ in fn.body:
+            if isinstance(s_, _ast.Assign) and _ast.unparse(s_.targets[0]) == 'to_include':
+                on = True
+            if on and isinstance(s_, _ast.If):
+                break
+            if on:
+                out.append(s_)
+        return out if len(out) == 4 else None
+
+    reg.cls('Sym', consts={'is_term': 'bool', 'name': 'str', 'filter_out': 'bool'})
+    reg.specfun('SUMEI', [('ei', 'seq[int]'), ('a', 'int'), ('b', 'int')], 'int', body='0 if b <= a else SUMEI(ei, a, b - 1) + ei[b - 1]')
+    reg.specfuns['SUMEI'].prefix = False
+    reg.contract('lark.parse_tree_builder:_should_expand', serves=S, params={'sym': 'Sym'}, returns='bool', pure=True,
+                 # underscore-prefixed RULES are inlined (terminals never)
+                 ensures=["result == (not sym.is_term and sym.name.startswith('_'))"])
+    KEPT = lambda s_: '(keep_all_tokens or not (%s.is_term and %s.filter_out))' % (s_, s_)
+    PREV = lambda k: '(to_include[%s - 1][0] if %s >= 1 else -1)' % (k, k)
+    ENTRIES = lambda upto: [
+        'all(0 <= to_include[k][0] and to_include[k][0] < %s and %s for k in range(0, len(to_include)))' % (upto, KEPT('expansion[to_include[k][0]]')),
+        # children keep input order; a kept symbol appears exactly once
+        'all(to_include[k][0] < to_include[m][0] for k in range(0, len(to_include)) for m in range(k + 1, len(to_include)))',
+        'all(implies(%s < j and j < to_include[k][0], not %s) for k in range(0, len(to_include)) for j in INT)' % (PREV('k'), KEPT('expansion[j]')),
+        'all(implies(%s < j and j < %s, not %s) for j in INT)' % ('(to_include[len(to_include) - 1][0] if len(to_include) >= 1 else -1)', upto, KEPT('expansion[j]')),
+        "all(to_include[k][1] == (not expansion[to_include[k][0]].is_term and expansion[to_include[k][0]].name.startswith('_')) for k in range(0, len(to_include)))",
+        # every placeholder between the previous kept symbol and this one is emitted right before this one
+        'all(to_include[k][2] == SUMEI(seq(empty_indices), %s + 1, to_include[k][0] + 1) for k in range(0, len(to_include)))' % PREV('k'),
+    ]
+    LAST = '(to_include[len(to_include) - 1][0] if len(to_include) >= 1 else -1)'
+    reg.contract('lark.parse_tree_builder:maybe_create_child_filter#include', serves=S, region=include_region,
+                 params={'expansion': 'list[Sym]', 'keep_all_tokens': 'bool', 'empty_indices': 'list[int]'},
+                 types={'to_include': 'list[%s]' % T3},
+                 requires=['len(empty_indices) == len(expansion) + 1'],
+                 ghost={'ensures_fall': ENTRIES('len(expansion)') + [
+                     # ... and the rest after the last kept symbol
+                     'nones_to_add == SUMEI(seq(empty_indices), %s + 1, len(expansion) + 1)' % LAST]},
+                 loops={0: dict(inv=['fresh(to_include)', 'len(empty_indices) == len(expansion) + 1'] + ENTRIES('_i0') + [
+                     'nones_to_add == SUMEI(seq(empty_indices), %s + 1, _i0)' % LAST])},
+                 names={'_should_expand': ('contract', 'lark.parse_tree_builder:_should_expand')},
+                 replay=_replay)
+
+    reg.cls('ExpandSingleChild', target='lark.parse_tree_builder:ExpandSingleChild', fields={'node_builder': 'any'})
+    reg.contract('lark.parse_tree_builder:ExpandSingleChild.__call__', serves=S, kind='method',
+                 params={'self': 'ExpandSingleChild', 'children': 'list[opt[Node]]'}, returns='any',
+                 ghost={'callv:self.node_builder#0': dict(returns='any', assumes=['result == APPLY(fn, arg0)'])},
+                 # a ?rule with exactly one child is replaced by it
+                 ensures=['implies(len(children) == 1, result == children[0])', 'implies(len(children) != 1, result == APPLY(self.node_builder, children))'],
+                 replay=_replay)
